@@ -252,6 +252,8 @@ pub fn all_kinds() -> Vec<(String, Vec<u8>)> {
                 v.push((format!("{core}@{fname}"), reframe(fi, ip)));
             }
         }
+        let v6 = pkt::build(&Spec { v6: true, src: 1, sport: 40000, dst: 2, dport: 80, flags: SYN, opts: vec![2, 4, 5, 0xa0], ..Spec::default() });
+        v.push((format!("syn-v6@{fname}"), reframe(fi, &v6)));
     }
     v
 }
@@ -274,13 +276,13 @@ pub fn run(thorough: bool) -> Outcome {
     }
     // framed kinds: every trace of <= 3 packets within one framing
     for fi in 0..FRAMINGS.len() {
-        let base = k + fi * 5;
+        let base = k + fi * 6;
         for n in 1..=3usize {
-            for mut i in 0..5usize.pow(n as u32) {
+            for mut i in 0..6usize.pow(n as u32) {
                 let mut t = vec![];
                 for _ in 0..n {
-                    t.push(base + i % 5);
-                    i /= 5;
+                    t.push(base + i % 6);
+                    i /= 6;
                 }
                 traces.push(t);
             }
